@@ -76,37 +76,42 @@ theorem file_subset_same_end (c : Cfg) (p : PhysTM) (cols : List Md) (slices : L
 
 /-! ### streams that cannot seek (repair F25)
 
-`sbdf_skip_bytes` moves with `fseek` and, where the stream refuses (`ESPIPE`), reads the bytes and
-drops them.  The two ways of moving agree on every stream that holds the bytes — so each skip of a
-well-formed section behaves the same on a pipe as on a file.  (That the fallback is taken exactly
-when `fseek` fails, and the lift of this step to whole sections on such streams, is checked by the
-correspondence stage "c07 streams that cannot seek".) -/
+`sbdf_skip_bytes` moves with `fseek` and, where the stream refuses (`ESPIPE`: a pipe, a socket,
+stdin), reads the bytes and drops them.  The model carries the kind of stream in the configuration
+(`Cfg.pipe`); every theorem above is stated for an arbitrary configuration, so skipping a well-formed
+section ends where the full read ends on both kinds of stream.  Below: the two ways of moving agree
+wherever the stream holds the bytes, and differ only on a truncated stream (the seek moves past
+the end and the next read fails; the read-and-drop fails at once). -/
 
 theorem discard_eq_seek (n : Int) (h0 : 0 ≤ n) (d : Array UInt8) (pos : Nat) (h : pos + n.toNat ≤ d.size) :
     discard n d pos = seek n d pos := by
   unfold discard seek readN
   have e : ((pos : Int) + n).toNat = pos + n.toNat := by omega
+  have hp : 0 ≤ (pos : Int) + n := by omega
   by_cases hn : n.toNat = 0
-  · have : n = 0 := by omega
-    subst this; simp
-  · simp only [hn, if_false, h, if_true]
-    have : 0 ≤ (pos : Int) + n := by omega
-    simp [this, e]
+  · simp [P.bind, P.pure, hn, hp, e]
+  · simp [P.bind, P.pure, hn, h, hp, e]
 
-/-- reading-and-dropping consumes exactly the bytes skipped, whatever follows -/
-theorem discard_reads (bs : Bytes) : Reads (discard (bs.length : Int)) bs () := by
-  intro pre rest
-  have := Reads.readN bs pre rest
-  unfold discard
-  simp only [Int.toNat_natCast]
-  rw [this]
+/-- the kind of stream does not matter while the bytes are there -/
+theorem skipBytes_pipe_irrelevant (c c' : Cfg) (n : Int) (h0 : 0 ≤ n) (d : Array UInt8) (pos : Nat)
+    (h : pos + n.toNat ≤ d.size) : skipBytes c n d pos = skipBytes c' n d pos := by
+  unfold skipBytes
+  split <;> split <;> first | rfl | exact discard_eq_seek n h0 d pos h | exact (discard_eq_seek n h0 d pos h).symm
 
-/-- and on a truncated stream it fails with an I/O error instead of moving past the end -/
+/-- both ways consume exactly the bytes skipped, whatever follows -/
+theorem skipBytes_reads (c : Cfg) (bs : Bytes) : Reads (skipBytes c (bs.length : Int)) bs () :=
+  Reads.skipBytesExact c bs _ rfl
+
+/-- on a truncated stream that cannot seek the skip fails with an I/O error at once -/
 theorem discard_truncated (n : Int) (hn : 0 < n) (d : Array UInt8) (pos : Nat) (h : d.size < pos + n.toNat) :
     discard n d pos = .error (.st .io) := by
   unfold discard readN
   have h1 : ¬ n.toNat = 0 := by omega
   have h2 : ¬ pos + n.toNat ≤ d.size := by omega
-  simp [h1, h2]
+  simp [P.bind, h1, h2]
+
+/-- instances: skip = read for value arrays and whole table slices on a stream that cannot seek -/
+example (va : VA) (h : va.Fits { pipe := true }) :
+    Reads (skipVA { pipe := true }) (Spec.va { pipe := true } va) () := (va_read_and_skip _ va h).2
 
 end Sbdf.C07
